@@ -99,6 +99,15 @@ func driftPossible(p *rc.Pos) bool {
 	return false
 }
 
+// rootDrifted: the engine's stored game phase of the root already differs from the capped sum over the board.
+func rootDrifted(root *rc.Pos, ep *position.Position) bool {
+	want := rawPhase(root)
+	if want > 24 {
+		want = 24
+	}
+	return ep.GamePhase() != want
+}
+
 // negamax is the plain reference: no pruning, no ordering, moves from the rules oracle,
 // leaf value = the engine's static evaluation, terminal scores as stated in the property.
 func (r *refSearch) negamax(ep *position.Position, rp *rc.Pos, depth, ply int) int {
@@ -199,7 +208,12 @@ func propC06(c c06Case, o *hx.Obs) *hx.Failure {
 				want = v
 			}
 		}
-		if ref.drift || driftPossible(&root) {
+		// a start position with more than 24 phase points (or a history through one) leaves the stored game phase
+	// below the true value; later captures then hit the lower clamp - the same listed finding
+	if rootDrifted(&root, mkPos()) {
+		ref.drift = true
+	}
+	if ref.drift || driftPossible(&root) {
 			recC06.Excluded("tree contains a position where the known game-phase drift can occur (>=20 phase points and a pawn on its 7th rank)", 1)
 			return nil
 		}
@@ -251,7 +265,7 @@ func propC06(c c06Case, o *hx.Obs) *hx.Failure {
 	}
 
 	// part 2: quiescence on - the root value is identical across all combinations of the sound switches
-	if hasDriftInTree(&root, c.Depth+2) {
+	if hasDriftInTree(&root, c.Depth+2) || rootDrifted(&root, mkPos()) {
 		recC06.Excluded("quiescence case with possible game-phase drift near the root", 1)
 		return nil
 	}
